@@ -45,7 +45,7 @@ func runC02(c *Ctx) {
 			r.GuardSite("C02-L1", u, s, c.W.Parse("!(p0.Commit < recv.raftLog.committed) && !(recv.raftLog.lastIndex() < p0.Commit)"), "committed <= state.Commit <= lastIndex")
 		case (u.Name == "raft.newLogWithSize" || u.Name == "raft.newLog") && val == "(firstIndex - 1)":
 			r.Ok("C02-L1", u.Name+": initialisation of a new log object from the storage's first index", u.Pos(s.Pos), "")
-		case (u.Name == "raft.StartNode" || u.Name == "raft.NewRawNode") && (val == "r.raftLog.lastIndex()" || val == "uint64(len(ents))"):
+		case (u.Name == "raft.StartNode" || u.Name == "raft.NewRawNode") && (val == "r.raftLog.lastIndex()" || val == "uint64(len(ents))" || val == "uint64(len(p1))"): // (ents is made with len(peers) elements: len(ents) prints as that)
 			r.Ok("C02-L1", u.Name+": bootstrap of a fresh log: the synthesized configuration entries are committed", u.Pos(s.Pos), "value "+val)
 		default:
 			r.Bad("C02-L1", fmt.Sprintf("%s: store raftLog.committed = %s has none of the accepted writer shapes", u.Name, val), u.Pos(s.Pos), "")
